@@ -1,9 +1,10 @@
 """C11 — pype: child context isolation, out mapping, error and stop propagation."""
 from core import fail
-from props.engine_common import EngineProp, generic_monitors
+from props.engine_common import EngineProp, RefProp, generic_monitors
 
 
-class Prop(EngineProp):
+class Prop(RefProp):
+    aspects = ('trace-tags', 'outcome', 'watch', 'trace-counters')
     id = 'C11'
     props_file = 'theories/Props/C11.v'
     n_cases = {'quick': 500, 'thorough': 12000}
@@ -15,11 +16,12 @@ class Prop(EngineProp):
             'out (str, list, map, missing key) / useParentContext / raiseError / groups / success / failure; '
             'children that end normally, by error, by each stop instruction; probes record stack depth and '
             'current pipeline. Monitors: balanced call stack after the run; every step runs with its own '
-            'pipeline as current pipeline (so call/jump after a pype resolve in the parent)')
+            'pipeline as current pipeline (so call/jump after a pype resolve in the parent); reference interpreter '
+            '(with pype: own/shared context, out, raiseError, Stop vs StopPipeline): executed steps, outcome, watched keys')
     trusted_base = EngineProp.engine_trusted
 
     def monitor(self, case, obs):
-        out = generic_monitors(case, obs)
+        out = RefProp.monitor(self, case, obs)
         has_tagless_probe = any(st.get('simple') and st['body'] == 'probe'
                                 for _, groups in case['lib'] for _, steps in groups for st in steps or [])
         if has_tagless_probe:
